@@ -136,6 +136,12 @@ def shrink_violation(mod, first: dict, budget_execs=250, budget_s=45.0):
         # shrinking must never lose the violation; fall back to the original tape
         final = run_case(mod, first["seed"], params, replay=first["tape"], keep_labels=True)
         best = first["tape"]
+        if not (final["status"] == "violation" and final["klass"] == klass and final["signature"] == sig):
+            # the violation does not replay from its own tape: the simulator lost control of something
+            return {"status": "harness_error", "seed": first["seed"], "params": params,
+                    "message": f"violation {klass}/{sig} did not reproduce from its own tape (replay gave {final['status']} "
+                               f"{final.get('klass')}/{final.get('signature')}): nondeterminism in harness or code under test; "
+                               f"original message: {first['message'][:300]}"}
     final["shrink_execs"] = execs
     final["orig_len"] = len(first["tape"])
     return final
@@ -188,7 +194,10 @@ def _worker_chunk(pid: str, base_seed: int, cases: list, do_shrink: bool, max_vi
                 if do_shrink:
                     o = shrink_violation(mod, o)
                 o["index"] = idx
-                agg["violations"].append(o)
+                if o["status"] == "harness_error":
+                    agg["harness_errors"].append({"index": idx, "seed": seed, "message": o["message"], "params": params})
+                else:
+                    agg["violations"].append(o)
             else:
                 agg["violations"].append({"index": idx, "seed": seed, "klass": o["klass"],
                                           "signature": o["signature"], "message": o["message"][:300],
